@@ -551,7 +551,37 @@ func checkBlock(ch *sim.Chain, b types.Block, bs consensus.V1BlockSupplement, la
 func checkWith(goroutinesFor func(i int) int) func(c sim.ChainCase) error {
 	return func(c sim.ChainCase) error {
 		i := 0
+		// what the library returned stays what it was: the updates of the last few applied blocks are kept (as a chain
+		// manager does until its subscribers have consumed them) together with their JSON form taken at once, and must
+		// still have that form after every later apply, revert and validation
+		type kept struct {
+			au     consensus.ApplyUpdate
+			js     string
+			height uint64
+		}
+		var retained []kept
+		stillSame := func(when string) error {
+			for _, k := range retained {
+				js, err := json.Marshal(k.au)
+				if err != nil || string(js) != k.js {
+					return stats.Failf("C09/retained-update", "the ApplyUpdate returned for the block at height %d changed %s (its JSON form differs from the one taken when it was returned; err %v)", k.height, when, err)
+				}
+			}
+			return nil
+		}
 		hooks := sim.Hooks{
+			AfterApply: func(ch *sim.Chain, st *sim.Step, parent consensus.State, au consensus.ApplyUpdate) error {
+				if err := stillSame(fmt.Sprintf("after the block at height %d was applied", ch.Height())); err != nil {
+					return err
+				}
+				if js, err := json.Marshal(au); err == nil {
+					retained = append(retained, kept{au, string(js), ch.Height()})
+					if len(retained) > 4 {
+						retained = retained[1:]
+					}
+				}
+				return nil
+			},
 			BeforeApply: func(ch *sim.Chain, st *sim.Step) error {
 				i++
 				if err := checkBlock(ch, *st.Block, *st.Supp, "honest", goroutinesFor(i)); err != nil {
